@@ -6,6 +6,7 @@ from .values import *
 from .exec import Unsupported, feasible
 from .libspec import Cx, promote, FRESH, is_arr
 from . import theory as TH
+from . import ttype as TT
 
 
 def kind_of_scalar(v):
@@ -108,7 +109,7 @@ class NP:
       raise Unsupported('.T on symbolic-rank array')
     dims = list(reversed(st.shape.dims))
     term = TH.tr(st.term) if st.shape.rank == 2 else (st.term if st.shape.rank <= 1 else None)
-    return cx.new(term, dims, st.kind, st.owner, base=(a.loc, st.version), vf=st.vf)
+    return cx.new(term, dims, st.kind, st.owner, base=(a.loc, st.version), vf=st.vf, tt=st.tt)
 
   # ------------------------------------------------------------------------------------- subscripts
   def getitem(self, cx, base, idx):
@@ -246,6 +247,7 @@ class NP:
       if st.kind == 'b':
         return [(p, VBool(term if term.sort() == z3.BoolSort() else term != 0))]
       sc = wrap_scalar(term, st.kind)
+      sc.tt = self._index_tt(cx, st, items)
       if st.vf is not None:
         sc.vf = st.vf
       if st.tag and st.tag[0] == 'range' and isinstance(sc, VInt):
@@ -253,12 +255,18 @@ class NP:
         p.assume(sc.t < st.tag[2])
       return [(p, sc)]
     owner = st.owner if is_view else FRESH
-    v = cx.new(term, out_dims, st.kind, owner, base=(base.loc, st.version) if is_view else None, vf=st.vf)
+    v = cx.new(term, out_dims, st.kind, owner, base=(base.loc, st.version) if is_view else None, vf=st.vf, tt=self._index_tt(cx, st, items))
     arrs = [x for x in pattern if x[0] == 'arr']
     if len(arrs) == 1 and arrs[0][2] == 0 and all(x[0] in ('arr', 'all') for x in pattern):
       # ghost provenance: result = base[idx]  (used by the call-structure refinement clauses of C08)
       p.store[v.loc] = p.store[v.loc].replace(tag=('gather', base.loc, arrs[0][1].loc))
     return [(p, v)]
+
+  def _index_tt(self, cx, st, items):
+    """indexing keeps the translation type of the indexed array as long as the indices themselves are translation invariant"""
+    base_t = st.tt or TT.INV
+    idx_ts = [TT.tt_of(cx.p, it) for it in items if isinstance(it, (VArr, VInt, VList, VTuple))]
+    return base_t if all(t == TT.INV for t in idx_ts) else TT.BAD
 
   def slice_len(self, cx, sl, d):
     p = cx.p
@@ -358,6 +366,11 @@ class NP:
         if vs.term is not None and vs.shape.concrete and vs.shape.rank == st.shape.rank:
           value = vs.term                                   # a[:] = b  (same shape: numpy raises otherwise)
     self.write(cx, base, 'item assignment', value=value)
+    whole = isinstance(idx, VSlice) and idx.lo is None and idx.hi is None and idx.step is None
+    newt = TT.tt_of(p, v) if whole else TT.same([st.tt or TT.INV, TT.tt_of(p, v)])
+    if not all(TT.tt_of(p, it) == TT.INV for it in (idx.items if isinstance(idx, VTuple) else [idx]) if isinstance(it, (VArr, VInt))):
+      newt = TT.BAD
+    p.store[base.loc] = p.store[base.loc].replace(tt=newt)
     if st.kind in ('i', 'b') and isinstance(v, (VArr, VInt)):
       f = cx.vf_of(v)
       cur = cx.st(base)
@@ -399,6 +412,7 @@ class NP:
         if KIND(q.store[v.loc].kind) > KIND(st.kind) and st.kind in ('i', 'b'):
           c2.may_raise('TypeError', None, 'in-place op cannot cast to integer array')
       self.write(c2, cur, 'augmented assignment', value=val)
+      q.store[cur.loc] = q.store[cur.loc].replace(tt=TT.tt_of(q, v))
       out.append(q)
     return out
 
@@ -473,7 +487,8 @@ class NP:
         term = TH.colscale2(lt, rt)
     if term is None:
       cx.note('value of array %s not modelled' % type(op).__name__)
-    return [(p, cx.new(term, dims, kind))]
+    opn = 'sub' if isinstance(op, ast.Sub) else 'add' if isinstance(op, ast.Add) else 'other'
+    return [(p, cx.new(term, dims, kind, tt=TT.arith(opn, TT.tt_of(p, l), TT.tt_of(p, r))))]
 
   def _eq(self, cx, x, y):
     if z3.simplify(x).eq(z3.simplify(y)):
@@ -486,10 +501,11 @@ class NP:
 
   def unop(self, cx, op, v):
     st = cx.st(v)
+    t_ = TT.INV if TT.tt_of(cx.p, v) == TT.INV else TT.BAD
     if op == '-':
-      return cx.new(TH.neg(st.term) if st.term is not None else None, st.shape.dims, st.kind)
+      return cx.new(TH.neg(st.term) if st.term is not None else None, st.shape.dims, st.kind, tt=t_)
     if op == '~':
-      return cx.new(TH.notT(st.term) if st.term is not None else None, st.shape.dims, 'b')
+      return cx.new(TH.notT(st.term) if st.term is not None else None, st.shape.dims, 'b', tt=t_)
     raise Unsupported('unary ' + op)
 
   def compare(self, cx, op, l, r):
@@ -505,7 +521,7 @@ class NP:
       term = TH.cmps(flip)(rt, ls)
     elif lt is not None and rt is not None:
       term = TH.cmpa(name)(lt, rt)
-    res = cx.new(term, dims, 'b')
+    res = cx.new(term, dims, 'b', tt=TT.arith('cmp', TT.tt_of(cx.p, l), TT.tt_of(cx.p, r)))
     if name == 'eq' and isinstance(l, VArr) and rs is not None and cx.st(l).tag and cx.st(l).tag[0] == 'uniq-inv':
       m = cx.st(l).tag[1]
       c = z3.ToInt(rs) if rs.sort() == z3.RealSort() else rs
